@@ -59,6 +59,10 @@ type PView struct {
 	MDOK     bool   `json:"mdok"`   // the backend saw the client's request metadata
 	Hang     bool   `json:"hang"`
 	Err      string `json:"err"`
+	// what the front's interceptors saw of this call (calls through larking only)
+	ICalls int `json:"icalls"` // interceptor invocations
+	IRecv  int `json:"irecv"`  // messages the stream interceptor's wrapping stream saw arrive
+	ISend  int `json:"isend"`  // messages it saw leave
 }
 type ProxyEv struct {
 	Ev      string  `json:"ev"`
@@ -286,7 +290,11 @@ func runCall(cc *grpc.ClientConn, s PScript, callID string) PView {
 	return pv
 }
 
+type iseen struct{ calls, recv, send int }
+
 type proxyWorld struct {
+	imu    sync.Mutex
+	iseen  map[string]*iseen
 	mux    *larking.Mux
 	b      *pbackend
 	direct *grpc.ClientConn
@@ -307,7 +315,36 @@ func newProxyWorld() (*proxyWorld, error) {
 	if w.regCC, err = b.dial(); err != nil {
 		return nil, err
 	}
-	mux, err := larking.NewMux()
+	// interceptors that do what interceptors usually do: look at the call and pass a wrapping stream on
+	w.iseen = map[string]*iseen{}
+	note := func(ctx context.Context) *iseen {
+		md, _ := metadata.FromIncomingContext(ctx)
+		id := ""
+		if v := md.Get("x-call"); len(v) > 0 {
+			id = v[0]
+		}
+		w.imu.Lock()
+		defer w.imu.Unlock()
+		if w.iseen[id] == nil {
+			w.iseen[id] = &iseen{}
+		}
+		w.iseen[id].calls++
+		return w.iseen[id]
+	}
+	mux, err := larking.NewMux(
+		larking.UnaryServerInterceptorOption(func(ctx context.Context, req interface{}, info *grpc.UnaryServerInfo, h grpc.UnaryHandler) (interface{}, error) {
+			note(ctx)
+			return h(ctx, req)
+		}),
+		larking.StreamServerInterceptorOption(func(srv interface{}, ss grpc.ServerStream, info *grpc.StreamServerInfo, h grpc.StreamHandler) error {
+			is := note(ss.Context())
+			ws := &watchStream{ServerStream: ss}
+			err := h(srv, ws)
+			w.imu.Lock()
+			is.recv, is.send = ws.recv, ws.send
+			w.imu.Unlock()
+			return err
+		}))
 	if err != nil {
 		return nil, err
 	}
@@ -342,6 +379,11 @@ func (w *proxyWorld) run(s PScript) ProxyEv {
 			pv.BGot, pv.BCalls, pv.MDOK = append([]int{}, r.BGot...), r.BCalls, r.MDOK
 		}
 		w.b.mu.Unlock()
+		w.imu.Lock()
+		if is := w.iseen[id]; is != nil {
+			pv.ICalls, pv.IRecv, pv.ISend = is.calls, is.recv, is.send
+		}
+		w.imu.Unlock()
 		return pv
 	}
 	func() {
